@@ -391,6 +391,40 @@ def evalFormula (thr : α) (f : Formula) (l r : Val α) (rad : Radii α) : Optio
     let p := matMul a b
     pure (if f.toAng then .a (toAngle thr p rad) else .m p)
 
+/-! ## Histories over a pool of live objects
+
+The operations have *value semantics*: what `l @ r`, `l @= r`, `r.__rmatmul__(l)` produce is a
+function of the operands' classes and current values only; an object carries no other state. -/
+
+structure Obj (α : Type) where
+  tag : Tag
+  val : Val α
+
+structure Step where
+  l : Nat
+  r : Nat
+  form : Form
+
+/-- The entry used and the resulting object of one operation on two operand objects. -/
+def stepResult (thr : α) (fresh : Bool) (rad : Radii α) (lo ro : Obj α) (f : Form) :
+    Option (Entry × Obj α) :=
+  match dispatch fresh lo.tag ro.tag f with
+  | none => none
+  | some e => match evalFormula thr e.f lo.val ro.val rad with
+    | none => none
+    | some v => some (e, ⟨e.res, v⟩)
+
+/-- One step of a history over the pool `P` (objects addressed by position): the new pool — the
+left operand's slot holds the result when the operation works in place, nothing else changes —
+and the result object.  `none`: bad index / `TypeError`. -/
+def stepPool (thr : α) (fresh : Bool) (rad : Radii α) (P : List (Obj α)) (st : Step) :
+    Option (List (Obj α) × Obj α) :=
+  match P[st.l]?, P[st.r]? with
+  | some lo, some ro => match stepResult thr fresh rad lo ro st.form with
+    | none => none
+    | some (e, res) => some (if e.inPlace then P.set st.l res else P, res)
+  | _, _ => none
+
 end Eval
 
 end C04
